@@ -310,9 +310,10 @@ def make_password_multi(n):
 
 PLAIN_PATTERNS = ["SECRET", "a.b", "x*"]
 REGEX_PATTERNS = ["SEC[[:digit:]]+", "^drop", "a[[:space:]]b$", "tok[[:alpha:]][[:upper:]]", "[[:xdigit:]]{2}:[[:xdigit:]]{2}", "x|yz", "[[:punct:]]end", "\\bw\\b",
-                  "[[:alnum:]]_[[:word:]]", "[[:blank:]][[:lower:]]$", "p.q", "(ab)+c"]
+                  "[[:alnum:]]_[[:word:]]", "[[:blank:]][[:lower:]]$", "p.q", "(ab)+c", "pin ([[:digit:]])\\1{3}", "([\"'])k\\1"]
 REGEX_SAMPLES = {"SEC[[:digit:]]+": "SEC7", "^drop": "drop", "a[[:space:]]b$": "a b", "tok[[:alpha:]][[:upper:]]": "tokaB", "[[:xdigit:]]{2}:[[:xdigit:]]{2}": "aF:09",
-                 "x|yz": "yz", "[[:punct:]]end": "!end", "\\bw\\b": "w", "[[:alnum:]]_[[:word:]]": "a_b", "[[:blank:]][[:lower:]]$": " z", "p.q": "p-q", "(ab)+c": "ababc"}
+                 "x|yz": "yz", "[[:punct:]]end": "!end", "\\bw\\b": "w", "[[:alnum:]]_[[:word:]]": "a_b", "[[:blank:]][[:lower:]]$": " z", "p.q": "p-q", "(ab)+c": "ababc",
+                 "pin ([[:digit:]])\\1{3}": "pin 7777", "([\"'])k\\1": "'k'"}
 
 
 def make_pattern():
@@ -334,7 +335,11 @@ def make_pattern():
         no_redact = en.flag("no_redact")
         case = lambda mv: {"kind": "pattern", "line": mv.str(line), "pattern": pat, "regex": regex, "no_redact": no_redact}  # noqa
         en.note_sample(case)
-        cl = K.make_cleaner(K.Cfg(obfuscate=False), patterns=[pat], regex=regex)
+        # several exclusion patterns may be configured; an earlier one with a group of its own must not disturb a later one
+        before = ["(zz)+q"] if (regex and en.flag("group_pattern_before")) else []
+        case = lambda mv: {"kind": "pattern", "line": mv.str(line), "pattern": pat, "regex": regex, "no_redact": no_redact, "before": before}  # noqa
+        en.note_sample(case)
+        cl = K.make_cleaner(K.Cfg(obfuscate=False), patterns=before + [pat], regex=regex)
         out = cl.clean_content([other, line], no_redact=no_redact)
         if no_redact:
             ok = len(out) == 2
@@ -611,7 +616,7 @@ def _native(case):
         elif ("secret" if case["which"] == "keyword" else "myhost") in text:
             bad.append("stored content still carries the token: %r" % text)
     elif kind == "pattern":
-        cl = K.make_cleaner(K.Cfg(obfuscate=False), patterns=[case["pattern"]], regex=case["regex"])
+        cl = K.make_cleaner(K.Cfg(obfuscate=False), patterns=case.get("before", []) + [case["pattern"]], regex=case["regex"])
         out = cl.clean_content(["harmless line", case["line"]], no_redact=case["no_redact"])
         if case["no_redact"]:
             if len(out) != 2:
